@@ -257,7 +257,7 @@ func (s *QSeq) AppendEach(a [][]alphabet.QLetter) error {
 // Column returns a slice of letters reflecting the column at pos.
 func (s *QSeq) Column(pos int, _ bool) []alphabet.Letter {
 	c := make([]alphabet.Letter, s.Rows())
-	for i, l := range s.Seq[pos] {
+	for i, l := range s.Seq[pos-s.Offset] {
 		if l.Q >= s.Threshold {
 			c[i] = l.L
 		} else {
@@ -269,7 +269,7 @@ func (s *QSeq) Column(pos int, _ bool) []alphabet.Letter {
 }
 
 // ColumnQL returns a slice of quality letters reflecting the column at pos.
-func (s *QSeq) ColumnQL(pos int, _ bool) []alphabet.QLetter { return s.Seq[pos] }
+func (s *QSeq) ColumnQL(pos int, _ bool) []alphabet.QLetter { return s.Seq[pos-s.Offset] }
 
 // Consensus returns a quality sequence reflecting the consensus of the receiver determined by the
 // ColumnConsense field.
@@ -277,7 +277,7 @@ func (s *QSeq) Consensus(_ bool) *linear.QSeq {
 	cs := make([]alphabet.QLetter, 0, s.Len())
 	alpha := s.Alphabet()
 	for i := range s.Seq {
-		cs = append(cs, s.ColumnConsense(s, alpha, i, false))
+		cs = append(cs, s.ColumnConsense(s, alpha, s.Offset+i, false))
 	}
 
 	qs := linear.NewQSeq("Consensus:"+s.ID, cs, s.Alpha, alphabet.Sanger)
